@@ -1,9 +1,29 @@
 #!/bin/bash
-# usage: adopt_seed.sh <ID-n> <worktree>   -- copies the agent's deliverables into /verif/seeded/<ID-n>/ and shows notes
-id=$1; wt=$2
-mkdir -p /verif/seeded/$id
-cp $wt/_seeded/patch.diff /verif/seeded/$id/patch.diff
-cp $wt/_seeded/zz_seeded_demo_test.go /verif/seeded/$id/
-cp $wt/_seeded/notes.md /verif/seeded/$id/notes.md
-head -3 /verif/seeded/$id/zz_seeded_demo_test.go
-wc -l /verif/seeded/$id/patch.diff
+# usage: adopt_seed.sh <ID> <wave> "<caught_by text>"  -- copies the deliverables of /tmp/seed-<ID>-<wave> into /verif/seeded/<ID>-<n>/
+# (n = next free number), writes meta.json from notes.md, removes the scratch worktree.
+id=$1; wave=$2; caught=$3
+wt=/tmp/seed-$id-$wave
+n=1; while [ -d /verif/seeded/$id-$n ]; do n=$((n+1)); done
+d=/verif/seeded/$id-$n
+mkdir -p $d
+cp $wt/_seeded/patch.diff $wt/_seeded/zz_seeded_demo_test.go $wt/_seeded/notes.md $d/ || exit 2
+python3 - "$id" "$d" "$caught" <<'P'
+import json, re, sys
+id, d, caught = sys.argv[1:4]
+t = open(d + "/notes.md").read()
+secs = re.split(r"\n(?=#+ *\(?[a-dA-D][\).])|\n(?=\(?[a-d]\) )", t)
+def sec(letter):
+    for s in secs:
+        if re.match(r"#* *\(?%s[\).]" % letter, s.strip(), re.I):
+            body = "\n".join(l for l in s.strip().splitlines()[1:] if l.strip()) or s
+            return " ".join(body.split())[:600]
+    return ""
+summary = sec("a") or " ".join(t.split())[:600]
+needs = sec("b")
+json.dump({"property": id, "summary": summary, "needs": needs,
+           "demo": "zz_seeded_demo_test.go (go test -vet=off -run TestSeededDemo in the touched package, see notes.md)",
+           "confirmed": "demo fails with patch / passes without, run by the main session in the agent's scratch worktree (removed afterwards)",
+           "caught_by": caught}, open(d + "/meta.json", "w"), indent=1)
+print(d, "|", summary[:160], "|", needs[:160])
+P
+git -C /repo worktree remove --force $wt && echo "worktree removed"
